@@ -293,7 +293,7 @@ func TestC03(t *testing.T) {
 	}
 
 	// ---- layer 3 ---------------------------------------------------------------------
-	c.rapidStage("layer3-decode", pick(30000, 300000), func(rt *rapid.T) {
+	c.rapidStage("layer3-decode", pick(30000, 1000000), func(rt *rapid.T) {
 		var vec spec.Vec
 		if rapid.Bool().Draw(rt, "full") {
 			vec = gen.FullV3(spec.Environmental, 70).Draw(rt, "vector")
